@@ -48,11 +48,13 @@ TIES = _ties()
 
 INT_NAMES = [3, 7, 10, 12]
 STR_NAMES = ["a", "g10", "g2", "zz"]           # lexicographic order differs from "numeric" order
+LONG_NAMES = ["m", "female", "fr", "fr-CA"]    # unequal lengths, one a prefix of another: the two label arrays get different
+                                               # fixed-width string dtypes when the longest name occurs in one class only
 
 
 # ------------------------------------------------------------------ generators
-def _mk(rng, ngroups, kind, npos, nneg, lacking=True, ties_across=False):
-    names = (INT_NAMES if kind == "int" else STR_NAMES)[:]
+def _mk(rng, ngroups, kind, npos, nneg, lacking=True, ties_across=False, pool=None):
+    names = (pool or (INT_NAMES if kind == "int" else STR_NAMES))[:]
     rng.shuffle(names)
     names = names[:ngroups]
     pos_g = [g for g in range(ngroups)]
@@ -111,7 +113,17 @@ def gen_cases(rng, tier):
         if rng.random() < 0.7:
             npos, nneg = max(npos, ngroups), max(nneg, ngroups)
         ties = k % 11 == 5
-        names, P, N = _mk(rng, ngroups, kind, npos, nneg, ties_across=ties)
+        longnames = kind == "str" and k % 5 == 1
+        names, P, N = _mk(rng, ngroups, kind, npos, nneg, ties_across=ties, pool=LONG_NAMES if longnames else None)
+        if longnames and P and N:
+            # the longest label present stays in one class only (when that leaves the other class non-empty)
+            longest = max(set(l for _, l in P + N), key=len)
+            if rng.random() < 0.5:
+                P2, N2 = [p for p in P if p[1] != longest], N
+            else:
+                P2, N2 = P, [q for q in N if q[1] != longest]
+            if P2 and N2:
+                P, N = P2, N2
         sc, ec = rng.choice(CONFIGS)
         is_sorted = rng.random() < 0.2
         if is_sorted:
@@ -124,7 +136,7 @@ def gen_cases(rng, tier):
             gnames = names[:]
             rng.shuffle(gnames)
         else:
-            extra = [x for x in (INT_NAMES if kind == "int" else STR_NAMES) if x not in names]
+            extra = [x for x in (INT_NAMES if kind == "int" else (LONG_NAMES if longnames else STR_NAMES)) if x not in names]
             gnames = names[:] + extra[:1]
             rng.shuffle(gnames)
         groups = gnames if gnames is not None else sorted(set(l for _, l in P + N))
@@ -135,6 +147,8 @@ def gen_cases(rng, tier):
         c = {"pos": [enc(x) for x, _ in P], "neg": [enc(x) for x, _ in N], "pg": [l for _, l in P],
              "ng": [l for _, l in N], "names": gnames, "kind": kind, "sc": sc, "ec": ec, "is_sorted": is_sorted,
              "thr": [enc(t) for t in thr], "unknown": unknown, "samples": _samples(rng, P, N, groups, 3)}
+        if longnames:
+            c["samples"].append({"method": "replacement", "strat": "by_group", "smoothing": False, "seed": rng.randint(0, 2**31 - 1)})
         if k % 17 == 3:
             c["samples"].append({"method": rng.choice(["proportion", "bogus", "callable_swap", "invalid"]),
                                  "strat": None, "smoothing": False, "seed": 1})
@@ -352,7 +366,12 @@ def sample_in_quantifier(case, smp):
         return False
     groups = case["names"] if case["names"] is not None else sorted(set(case["pg"]) | set(case["ng"]))
     if smp["strat"] == "by_group":
-        return bool(groups) and all(g in case["pg"] and g in case["ng"] for g in groups)
+        if smp["method"] == "single_pass":   # single pass needs both classes in every group (documented error otherwise)
+            return bool(groups) and all(g in case["pg"] and g in case["ng"] for g in groups)
+        # replacement (dynamic resolves to it for by_group) resamples every group as it is: a group that lacks a class has
+        # nothing to sample in that class and keeps lacking it ("groups may lack a class"); the strata that are sampled
+        # are the non-empty ones
+        return bool(groups)
     return bool(case["pos"]) and bool(case["neg"])
 
 
